@@ -1,3 +1,4 @@
+import WK.Gen.C33
 import WK.Proofs.C33_Inv
 import WK.Proofs.C33_Sort
 /-
@@ -468,5 +469,91 @@ example : (match (step (run {} [.become exT,
       .reg exT ⟨[117], 1, 1, 1, 2, [102], 2, 0, [], 100, 0⟩]) (.ep exT [117])).2 with
     | .routes rs => rs.map (·.sess)
     | _ => []) = [1, 2, 3] := by decide
+
+/-! ### 5. T tie: the owner-sequence / tombstone guards as written in directory.go
+
+  `WK.Gen.C33` is regenerated from the Go source on every run (extract/c33.go): the comparison
+  operator and the use of the map-presence flag of every guard at the three admission sites
+  (registerLocked, commitRouteLocked, touchLocked) and of the four statements of UnregisterRoute.
+  The theorems below say that the guards so spelled are, for all inputs, the ones the model
+  executes — so an edited operator (`<=` → `<`), a dropped `ok &&` or `!ok ||` breaks a proof. -/
+
+section source
+open WK.Gen.C33
+
+/-- meaning of a source comparison operator on owner sequences (uint64 as Nat) -/
+def cmpEval : Cmp → Nat → Nat → Bool
+  | .lt, a, b => decide (a < b)
+  | .le, a, b => decide (a ≤ b)
+  | .gt, a, b => decide (a > b)
+  | .ge, a, b => decide (a ≥ b)
+  | .eq, a, b => decide (a = b)
+  | .ne, a, b => decide (a ≠ b)
+
+/-- meaning of `ok && c` / `!ok || c` / `c` -/
+def okGuard : OkUse → Bool → Bool → Bool
+  | .and, present, c => present && c
+  | .ornot, present, c => !present || c
+  | .none, _, c => c
+
+/-- the staleness test of one call site exactly as the source spells it:
+    `tombstone, ok := s.tombstoneSeq[key]` (0 when absent), then the two `if`s -/
+def staleSrc (tombOk : OkUse) (tombCmp seqCmp : Cmp) (s : Slot) (k : Key) (seq : Nat) : Bool :=
+  okGuard tombOk (aget k s.tomb).isSome (cmpEval tombCmp seq ((aget k s.tomb).getD 0)) ||
+  cmpEval seqCmp seq (getSeq k s.ownerSeq)
+
+/-- the tombstone store of `UnregisterRoute` as the source spells it -/
+def tombAfterSrc (m : List (Key × Nat)) (k : Key) (seq : Nat) : List (Key × Nat) :=
+  if okGuard unregStoreOk (aget k m).isSome (cmpEval unregStoreCmp seq ((aget k m).getD 0)) then aset k seq m else m
+
+theorem c33_src_stale_guards (s : Slot) (k : Key) (seq : Nat) :
+    staleSrc registerTombOk registerTombCmp registerSeqCmp s k seq = s.staleFor k seq ∧
+    staleSrc commitTombOk commitTombCmp commitSeqCmp s k seq = s.staleFor k seq ∧
+    staleSrc touchTombOk touchTombCmp touchSeqCmp s k seq = s.staleFor k seq := by
+  unfold staleSrc Slot.staleFor
+  cases aget k s.tomb <;>
+    simp [registerTombOk, registerTombCmp, registerSeqCmp, commitTombOk, commitTombCmp, commitSeqCmp,
+      touchTombOk, touchTombCmp, touchSeqCmp, cmpEval, okGuard]
+
+theorem c33_src_unregister (s : Slot) (k : Key) (seq : Nat) :
+    tombAfterSrc s.tomb k seq = tombAfter s.tomb k seq ∧
+    (s.unregSeq k seq).ownerSeq = (if cmpEval unregSeqCmp seq (getSeq k s.ownerSeq) then aset k seq s.ownerSeq else s.ownerSeq) ∧
+    s.unregActive k seq = (if okGuard unregActiveOk (findA k s.active).isSome
+        (cmpEval unregActiveCmp ((findA k s.active).getD default).seq seq) then s.removeActive k else s) ∧
+    (s.unregPending k seq).pending = s.pending.filter (fun p => !(p.route.key = k && cmpEval unregPendingCmp p.route.seq seq)) := by
+  refine ⟨?_, ?_, ?_, ?_⟩
+  · unfold tombAfterSrc tombAfter
+    cases aget k s.tomb <;> simp [unregStoreOk, unregStoreCmp, cmpEval, okGuard]
+  · simp [Slot.unregSeq, unregSeqCmp, cmpEval]
+  · unfold Slot.unregActive
+    cases findA k s.active <;> simp [unregActiveOk, unregActiveCmp, cmpEval, okGuard]
+  · simp [Slot.unregPending, unregPendingCmp, cmpEval]
+
+/-- consequence stated on the source operators: whatever passes the register / commit / touch
+    guards of directory.go is strictly above the tombstone, and an unregister at `seq` leaves a
+    tombstone ≥ seq — the two facts the fence theorem rests on -/
+theorem c33_src_guards_fence (s : Slot) (k : Key) (seq : Nat) :
+    (staleSrc registerTombOk registerTombCmp registerSeqCmp s k seq = false → ∀ t, aget k s.tomb = some t → t < seq) ∧
+    (staleSrc commitTombOk commitTombCmp commitSeqCmp s k seq = false → ∀ t, aget k s.tomb = some t → t < seq) ∧
+    (staleSrc touchTombOk touchTombCmp touchSeqCmp s k seq = false → ∀ t, aget k s.tomb = some t → t < seq) ∧
+    (∃ t, aget k (tombAfterSrc s.tomb k seq) = some t ∧ seq ≤ t) := by
+  obtain ⟨h1, h2, h3⟩ := c33_src_stale_guards s k seq
+  refine ⟨fun h => staleFor_false (h1 ▸ h), fun h => staleFor_false (h2 ▸ h), fun h => staleFor_false (h3 ▸ h), ?_⟩
+  rw [(c33_src_unregister s k seq).1]
+  obtain ⟨t, g1, g2, _⟩ := tombAfter_get s.tomb k seq
+  exact ⟨t, g1, g2⟩
+
+theorem c33_src_registry_rejects_zero_session : registryRejectsZeroSession = true := rfl
+
+
+/-- non-vacuity: with a tombstone at 3 the source guard refuses 3 and admits 4; without a
+    tombstone only the owner-sequence comparison applies; the first unregister stores at 0 too -/
+example : staleSrc registerTombOk registerTombCmp registerSeqCmp { target := exT, tomb := [(exK, 3)] } exK 3 = true := by decide
+example : staleSrc registerTombOk registerTombCmp registerSeqCmp { target := exT, tomb := [(exK, 3)] } exK 4 = false := by decide
+example : staleSrc touchTombOk touchTombCmp touchSeqCmp { target := exT, ownerSeq := [(exK, 5)] } exK 4 = true := by decide
+example : tombAfterSrc [] exK 0 = [(exK, 0)] := by decide
+example : tombAfterSrc [(exK, 5)] exK 4 = [(exK, 5)] := by decide
+
+end source
 
 end WK.C33
